@@ -700,8 +700,8 @@ func (m *Memory) writeDb(rLocked bool) {
 	l := len(times)
 	m.SavePending.Add(-int32(l))
 
-	// fork
-	go func() {
+	// fork, unless syncing (the caller expects the records to be stored)
+	write := func() {
 		if rLocked {
 			defer m.syncMx.RUnlock()
 		}
@@ -762,7 +762,12 @@ func (m *Memory) writeDb(rLocked bool) {
 		// stats
 		all := m.Saved.Add(uint64(l))
 		m.log("saved %d records (total %d)", l, all)
-	}()
+	}
+	if rLocked {
+		go write()
+	} else {
+		write()
+	}
 }
 
 func (m *Memory) checkGc() {
